@@ -30,8 +30,12 @@ type solverSpec struct {
 }
 
 func cvc5Prep(s string) string {
-	// cvc5 wants produce-models before set-logic (already so); it needs ALL for mixed theories.
-	return s
+	// cvc5 wants produce-models before set-logic; it needs ALL for mixed theories.
+	const pm = "(set-option :produce-models true)\n"
+	if strings.HasPrefix(s, pm) {
+		return pm + "(set-logic ALL)\n" + s[len(pm):]
+	}
+	return "(set-logic ALL)\n" + s
 }
 
 var solverSpecs = []solverSpec{
